@@ -49,3 +49,13 @@ func Tick() uint64
 //
 //go:linkname ResetTick runtime.simResetTick
 func ResetTick()
+
+// GoID identifies the calling goroutine.
+//
+//go:linkname GoID runtime.simGoID
+func GoID() uint64
+
+// Bubbled reports whether the caller runs in a bubble under the seeded runtime.
+//
+//go:linkname Bubbled runtime.simBubbled
+func Bubbled() bool
